@@ -296,6 +296,8 @@ func (x *Exec) eval(e ast.Expr, st *State, env *Env) Val {
 func (x *Exec) evalUnary(n *ast.UnaryExpr, st *State, env *Env) Val {
 	v := x.eval(n.X, st, env)
 	switch n.Op {
+	case token.ARROW:
+		return x.recvFrom(v, st, n)
 	case token.NOT:
 		v = x.defaultType(v)
 		return Val{T: not(v.T), Ty: tBool}
